@@ -372,6 +372,8 @@ class Emitter:
                     rec.rewrites["N6"] = rec.rewrites.get("N6", 0) + 1
             if opts["name"]:
                 edits.append((toks[kw + 1].start, toks[kw + 1].end, opts["name"], "name"))
+                rec.renamed = (opts["name"], toks[kw + 1].text)
+                rec.rewrites["N11"] = rec.rewrites.get("N11", 0) + 1
         else:
             edits.append((toks[kw].start, toks[bo - 1].end, opts["sig"], "sig"))
             if opts.get("expect_sig") is not None:
@@ -607,6 +609,8 @@ def check_faithful(emitter, out_text):
             toks = toks[1:]
         src = list(rec.src_tokens)
         # invert rewrites on the emitted side
+        if getattr(rec, "renamed", None) and rec.renamed[0] in toks:
+            toks[toks.index(rec.renamed[0])] = rec.renamed[1]      # N11: emitted under another name
         inv = _invert(toks, emitter)
         # N6: remove `( r :` ... `)` around return type -> compare modulo those tokens
         if getattr(rec, "cut", 0) or "sig" in [k for k in []]:
